@@ -6,42 +6,24 @@ import I18n.Lemmas.MoLayout
 Stated about `Mo.parse` (the line-by-line model of `lib/moparser.py`) against `Spec.Encodes`, the declarative
 reading of the MO format, for every byte string and every codec database (text decoding is a parameter).
 
-The property as stated is **false** of the code: for an entry with a context the two halves of the key
-`msgctxt EOT msgid` are bound the wrong way round (lib/moparser.py:155).  So the full-strength statement
-`ParseOfEncodes` is kept, its negation is proved from a concrete 42-byte file (`parse_of_encodes_refuted`),
-the exact behaviour of the code is proved for all files (`parse_of_encodes_as_coded`), and the statement itself
-is proved for all catalogs without contexts (`parse_of_encodes_partial`).
+History: on the pinned tree the property was false (the two halves of `msgctxt EOT msgid` were bound the wrong way
+round, lib/moparser.py:155); that was repaired by the `fix:` commit 8953e21 in /repo, the model follows the
+repaired code, and the full-strength statement `parse_of_encodes` is now a theorem.  The 42-byte file that refuted
+it is kept as a regression witness (`witness_parse`).
 -/
 namespace I18n.Props.C08
 open I18n.Mo I18n.Mo.Spec
 
-/-- **C08 as stated**: a byte string that is a legal layout of the (well-formed) catalog `cat` loads to exactly
-    `cat`, decoded in the charset its header entry names, in file order, with the hidden-strings flag. -/
-def ParseOfEncodes (db : CodecDB) : Prop :=
-  ∀ (b : Bytes) (cat : List CatEntry) (hidden : Bool),
-    Encodes b cat hidden → (∀ e ∈ cat, e.WF) → parse db none b = expected db none cat hidden
-
-/-- What the code does, for **every** byte string that encodes a catalog (any layout, either byte order, any
-    placement/overlap/padding, any `encoding=` argument): the expected result with msgctxt and msgid exchanged
-    in every entry that has a context; everything else — order, plural structure, charset selection, hidden
-    flag — as the format prescribes. -/
-theorem parse_of_encodes_as_coded (db : CodecDB) (given : Option Bytes) (b : Bytes) (cat : List CatEntry) (hidden : Bool)
+/-- **C08 as stated**: a byte string that is a legal layout of the (well-formed) catalog `cat` (any layout, either
+    byte order, any placement/overlap/padding, any `encoding=` argument) loads to exactly `cat`, decoded in the
+    charset its header entry names, in file order, with msgctxt, msgid, msgid_plural, msgstr / indexed forms and
+    the hidden-strings flag. -/
+theorem parse_of_encodes (db : CodecDB) (given : Option Bytes) (b : Bytes) (cat : List CatEntry) (hidden : Bool)
     (h : Encodes b cat hidden) (hwf : ∀ e ∈ cat, e.WF) :
-    parse db given b = expectedAsCoded db given cat hidden :=
+    parse db given b = expected db given cat hidden :=
   parse_complete db given h hwf
 
-/-- **C08 for catalogs without contexts** (any layout, any charset, plural or not): holds in full. -/
-theorem parse_of_encodes_partial (db : CodecDB) (given : Option Bytes) (b : Bytes) (cat : List CatEntry) (hidden : Bool)
-    (h : Encodes b cat hidden) (hwf : ∀ e ∈ cat, e.WF) (hctx : ∀ e ∈ cat, e.ctxt = none) :
-    parse db given b = expected db given cat hidden := by
-  rw [parse_complete db given h hwf]
-  have : cat.map swapCtxt = cat := by
-    have : ∀ e ∈ cat, swapCtxt e = id e := by
-      intro e he; simp [swapCtxt, hctx e he]
-    rw [List.map_congr_left this, List.map_id]
-  simp only [expectedAsCoded, expected, this]
-
-/-! the witness: `msgctxt "c"  msgid "i"  msgstr "s"` in the plainest little-endian layout -/
+/-! the regression witness: `msgctxt "c"  msgid "i"  msgstr "s"` in the plainest little-endian layout -/
 
 def witnessFile : Bytes :=
   [0xDE, 0x12, 0x04, 0x95,  0, 0, 0, 0,  1, 0, 0, 0,  20, 0, 0, 0,  28, 0, 0, 0,   -- magic, revision 0, N = 1, O = 20, T = 28
@@ -71,45 +53,29 @@ theorem witness_wf : ∀ e ∈ witnessCat, e.WF := by
     forms_ne := by decide
     singular_one := by intro _; rfl }
 
-/-- the code returns msgid "c", msgctxt "i" … -/
+/-- the code returns msgctxt "c", msgid "i" (before the fix: the two exchanged) -/
 theorem witness_parse :
-    parse asciiDB none witnessFile = .ok ⟨[⟨['c'], some ['i'], .singular ['s']⟩], false⟩ := by rfl
+    parse asciiDB none witnessFile = .ok ⟨[⟨['i'], some ['c'], .singular ['s']⟩], false⟩ := by rfl
 
-/-- … where the catalog says msgctxt "c", msgid "i" -/
 theorem witness_expected :
     expected asciiDB none witnessCat false = .ok ⟨[⟨['i'], some ['c'], .singular ['s']⟩], false⟩ := by rfl
-
-/-- **C08 as stated is false of the code** (recorded in known_findings.json as `C08 / ctxt-swap`). -/
-theorem parse_of_encodes_refuted : ¬ ParseOfEncodes asciiDB := by
-  intro h
-  have := h witnessFile witnessCat false witness_encodes witness_wf
-  rw [witness_parse, witness_expected] at this
-  injection this with this
-  revert this
-  decide
 
 /-! ### the layout family -/
 
 /-- **Every layout of the family is a legal file**: either byte order, major 0/1, any minor revision (with word 36
     when it is 1), arbitrary bytes after the five header words a reader needs (hash-table fields, sysdep fields, a
     hash table, …), the two descriptor tables in either order with arbitrary bytes between and after them, every
-    string preceded by arbitrary padding, arbitrary trailer.  With `parse_of_encodes_as_coded` this gives
+    string preceded by arbitrary padding, arbitrary trailer.  With `parse_of_encodes` this gives
     `parse (serialize cat l)` for every catalog and every such layout. -/
 theorem serialize_encodes (cat : List CatEntry) (l : Layout) (hok : l.OK cat) :
     Encodes (serialize cat l) cat l.hidden :=
   serialize_encodes_aux cat l hok
 
-/-- `forall catalogs c, forall layouts l: parse(serialize(c, l)) == c` — as coded (contexts exchanged) … -/
-theorem parse_serialize_as_coded (db : CodecDB) (given : Option Bytes) (cat : List CatEntry) (l : Layout)
+/-- `forall catalogs c, forall layouts l: parse(serialize(c, l)) == c` -/
+theorem parse_serialize (db : CodecDB) (given : Option Bytes) (cat : List CatEntry) (l : Layout)
     (hok : l.OK cat) (hwf : ∀ e ∈ cat, e.WF) :
-    parse db given (serialize cat l) = expectedAsCoded db given cat l.hidden :=
-  parse_complete db given (serialize_encodes cat l hok) hwf
-
-/-- … and exactly as stated when no entry has a context. -/
-theorem parse_serialize_partial (db : CodecDB) (given : Option Bytes) (cat : List CatEntry) (l : Layout)
-    (hok : l.OK cat) (hwf : ∀ e ∈ cat, e.WF) (hctx : ∀ e ∈ cat, e.ctxt = none) :
     parse db given (serialize cat l) = expected db given cat l.hidden :=
-  parse_of_encodes_partial db given _ cat _ (serialize_encodes cat l hok) hwf hctx
+  parse_complete db given (serialize_encodes cat l hok) hwf
 
 /-- the witness file is the plainest layout of the witness catalog -/
 theorem witness_is_serialized :
